@@ -23,7 +23,8 @@ def spec_select(m, N, dt, t, tol, off, interp, kw):
     c, f = math.ceil(s), math.floor(s)
     older, newer = m[(off + c) % N], m[(off + f) % N]
     el = float(Fr(dt) * c - Fr(t))
-    return interp(older, newer, torch.full_like(older, el), dt, **kw)
+    # the elapsed time is a real number whatever the record stores (integer / boolean records too)
+    return interp(older, newer, torch.full(older.shape, el, dtype=older.dtype if older.is_floating_point() else torch.float64), dt, **kw)
 
 
 def in_range(N, dt, t, tol):
@@ -35,11 +36,11 @@ def check_select(N, ptr, dt, t, tol, off, iname, dtype=torch.float64):
     m = view(rec)
     interp = getattr(F, iname)
     kw = KW.get(iname, {})
-    inp = dict(N=N, ptr=ptr, dt=dt, t=t, tol=tol, off=off, interp=iname)
+    inp = dict(N=N, ptr=ptr, dt=dt, t=t, tol=tol, off=off, interp=iname, dtype=str(dtype))
     ok = in_range(N, dt, t, tol)
     res = {}
     for mode in ("scalar", "tensor"):
-        tt = t if mode == "scalar" else torch.full((2,), t, dtype=dtype)
+        tt = t if mode == "scalar" else torch.full((2,), t, dtype=dtype if dtype.is_floating_point else torch.float64)
         try:
             res[mode] = rec.select(tt, interp, tolerance=tol, offset=off, interp_kwargs=kw)
         except ValueError:
@@ -218,10 +219,19 @@ def sweep(tier="quick", seed=0, unsupported=()):
                 for iname in ("interp_previous", "interp_linear"):
                     fl += 1
                     add(check_select(N, N - 1, dt, k * dt, 1e-6, 1, iname, dtype=torch.float32))
+    # integer and boolean records (spike records are boolean): selection must not depend on the storage data type
+    nf = 0
+    for dtype in (torch.int64, torch.bool):
+        for N in (2, 3):
+            for t in (0.1, 0.5, 0.9, 1.3, 1.0):
+                for iname in ("interp_nearest", "interp_previous", "interp_next"):
+                    nf += 1
+                    add(check_select(N, N - 1, 1.0, t, 0.0, 1, iname, dtype=dtype))
     pf, pn = pair_cases()
     for f_ in pf:
         add(f_)
     return {"standins": [
+        {"function": "select on int64 / bool records (scalar and tensor time agree with the float reference)", "domain": "N in {2,3}, 5 times, 3 interpolations", "cases": nf, "proved": False, "label": "bounded"},
         {"function": "shipped extrapolation/interpolation pairs (linear ones also with adjust = halve / shift / clamp): round trip and documented endpoints", "domain": "2 samples x 2 x 2 bracket values x dt in {1, 0.5} x ts/dt in {1/4, 1/2, 7/8}", "cases": pn, "proved": False, "label": "bounded"},
         {"function": "RecordTensor.select/insert scalar AND tensor time vs rational-arithmetic spec (real torch)", "domain": f"dt in {dts}, N in {Ns}, tol/dt in {tols}, all ptr, offsets {{0,1,2N}}, times on/off grid, +-tol, +-2tol, both range limits; 8 extrap/interp pairs; round trip", "cases": cases, "proved": False, "label": "bounded"},
         {"function": "select on float32 storage with non-representable dt (IEEE rounding of time/dt: declared unverified clause)", "domain": "dt in {0.1,1.3,0.7}, N in {3,6}, t = k*dt", "cases": fl, "proved": False, "label": "bounded"}],
@@ -239,8 +249,15 @@ def replay(contract, label, model, note=""):
     t, tol = dt * s, dt * tau
     out = None
     if "select" in contract:
-        for iname in ("interp_linear", "interp_previous", "interp_next", "interp_nearest"):
-            out = check_select(N, ptr, dt, t, tol, off, iname)
+        dts = [torch.int64, torch.bool] if ("int record" in contract or "bool record" in contract) else [torch.float64]
+        for dtp in dts:
+            for iname in (("interp_nearest", "interp_previous", "interp_next") if dtp != torch.float64 else ("interp_linear", "interp_previous", "interp_next", "interp_nearest")):
+                for tt_ in ((t,) if dtp == torch.float64 else (t, 0.1, 0.9)):
+                    out = check_select(N, ptr, dt, tt_, tol, off, iname, dtype=dtp)
+                    if out:
+                        break
+                if out:
+                    break
             if out:
                 break
     if out is None and ("insert" in contract or "roundtrip" in contract):
@@ -273,7 +290,7 @@ def replay_native(rp):
     inp = dict(rp["input"])
     what = rp.get("what", "")
     if "/select/" in what:
-        f = check_select(inp["N"], inp["ptr"], inp["dt"], inp["t"], inp["tol"], inp["off"], inp["interp"])
+        f = check_select(inp["N"], inp["ptr"], inp["dt"], inp["t"], inp["tol"], inp["off"], inp["interp"], dtype=getattr(torch, str(inp.get("dtype", "torch.float64")).split(".")[-1]))
     else:
         f = check_insert(inp["N"], inp["ptr"], inp["dt"], inp["t"], inp["tol"], inp["off"], inp["extrap"], inp.get("interp", "interp_linear"), inp["inplace"], inp["mode"])
     return {"reproduced": f is not None, "failure": f}
